@@ -1442,3 +1442,88 @@ package sod
 //@ loop 1 invariant [flushed] imp(last == nil, forallk(t, string, imp(has(db.schemas, t), forallk(u, string, !pend(db, db.schemas[t], u)))))
 //@ loop 1 invariant [committed] imp(last == nil, forallk(t, string, imp(has(db.schemas, t) && visited(t), committed(db, db.schemas[t]))))
 //@ modifies Ghost.ACQ_H, Ghost.FSk, Ghost.FSc, MapDom[string,Object], MapCard[string,Object], Async.routineStarted, MapDom[string,*Schema]@db.schemas, MapVal[string,*Schema]@db.schemas, MapCard[string,*Schema]@db.schemas
+
+// ---- integrity control (C11) ---------------------------------------------------------------
+
+//@ func uuidExt
+//@ serves C11 C18 C19
+//@ ensures [C18 uuidExt.prefix] uuid == prefixOf(name)
+//@ modifies nothing
+//@ allocates Elem[string], Elem[interface{}]
+
+//@ func uuidsFromDir
+//@ serves C11 C18 C19
+//@ assume [regexp-compiled] uuidRegexp != nil
+//@ ghost src garray[string]int := src
+//@ ensures [C11 ufd.error] imp(err != nil, uuids == nil)
+//@ ensures [C11 ufd.sound] imp(err == nil, uuids != nil && fresh(uuids) && forallk(u, string, imp(has(uuids, u), uuids[u] && uuidShaped(u) && FSk[dir + "/" + entryName(cast(src[u], os.DirEntry))] != 0 && prefixOf(entryName(cast(src[u], os.DirEntry))) == u)))
+//@ ensures [C11 ufd.complete] imp(err == nil, forallk(n, string, imp(FSk[dir + "/" + n] != 0 && uuidShaped(prefixOf(n)), has(uuids, prefixOf(n)))))
+//@ loop 1 ghost src garray[string]int
+//@ loop 1 update src u := ite(u == uuid && uuidShaped(uuid), entry, src[u])
+//@ loop 1 invariant [bounds] (-1 <= rangeindex && rangeindex < len(entries)) || (rangeindex == -1 && len(entries) == 0)
+//@ loop 1 invariant [frame] preserved(Elem[os.DirEntry], MapDom[string,bool], MapVal[string,bool], MapCard[string,bool])
+//@ loop 1 invariant [map] uuids != nil && fresh(uuids)
+//@ loop 1 invariant [sound] forallk(u, string, imp(has(uuids, u), uuids[u] && uuidShaped(u) && FSk[dir + "/" + entryName(cast(src[u], os.DirEntry))] != 0 && prefixOf(entryName(cast(src[u], os.DirEntry))) == u))
+//@ loop 1 invariant [complete-so-far] forall(k, 0, rangeindex + 1, imp(uuidShaped(prefixOf(entryName(entries[k]))), has(uuids, prefixOf(entryName(entries[k])))))
+//@ loop 1 decreases len(entries) - rangeindex
+//@ modifies nothing
+//@ allocates MapDom[string,bool], MapVal[string,bool], MapCard[string,bool], Elem[string], Elem[interface{}], Elem[os.DirEntry]
+
+//@ func (*objIndex).len
+//@ serves C11
+//@ requires in != nil
+//@ ensures result == len(in.ObjectIds)
+//@ pure
+
+//@ func typeof
+//@ serves C11 C19
+//@ trusted "reflect.TypeOf (pointer stripped)"
+//@ pure
+
+//@ func (*objIndex).control
+//@ serves C11 C19
+//@ requires [decoded] decodedOK(in)
+//@ ensures [C11 C19 oc.consistent] imp(result == nil, idxConsistent(in))
+//@ ensures [C19 oc.class] imp(result != nil, !errIs(result, ErrIndexCorrupted) && !errIs(result, ErrStructureChanged) && !isStorage(result))
+//@ loop 1 invariant [visited-ok] forallk(f, string, imp(has(in.Fields, f) && visited(f), wfOrder(in.Fields[f]) && len(in.Fields[f].Index) == len(in.ObjectIds) && len(in.Fields[f].objectIds) == len(in.Fields[f].Index) && forallk(id, uint64, imp(has(in.Fields[f].objectIds, id), has(in.ObjectIds, id)))))
+//@ loop 1 invariant [sizes] len(in.uuids) == len(in.ObjectIds)
+//@ loop 2 invariant [outer] forallk(f, string, imp(has(in.Fields, f) && visited(f) && f != fn, wfOrder(in.Fields[f]) && len(in.Fields[f].Index) == len(in.ObjectIds) && len(in.Fields[f].objectIds) == len(in.Fields[f].Index) && forallk(id, uint64, imp(has(in.Fields[f].objectIds, id), has(in.ObjectIds, id)))))
+//@ loop 2 invariant [current] has(in.Fields, fn) && wfOrder(in.Fields[fn]) && len(in.Fields[fn].Index) == len(in.ObjectIds) && len(in.Fields[fn].objectIds) == len(in.Fields[fn].Index) && len(in.uuids) == len(in.ObjectIds)
+//@ loop 2 invariant [ids-so-far] forallk(id, uint64, imp(has(in.Fields[fn].objectIds, id) && visited(id), has(in.ObjectIds, id)))
+//@ modifies nothing
+//@ allocates Elem[interface{}]
+
+// ---- schema guard (C17) -------------------------------------------------------------------
+
+//@ func (*FieldDescriptor).FieldEqual
+//@ serves C17
+//@ requires d != nil && other != nil
+//@ ensures result == (d.Path == other.Path && d.Type == other.Type)
+//@ pure
+
+//@ func (*FieldDescriptor).DeepEqual
+//@ serves C17
+//@ trusted "reflect.DeepEqual of two field descriptors: equality of all fields"
+//@ requires d != nil && other != nil
+//@ ensures result == (d.Path == other.Path && d.Type == other.Type && d.Constraints.Index == other.Constraints.Index && d.Constraints.Unique == other.Constraints.Unique && d.Constraints.Upper == other.Constraints.Upper && d.Constraints.Lower == other.Constraints.Lower)
+//@ pure
+
+//@ func (FieldDescMap).FieldsCompatibleWith
+//@ serves C17 C11
+//@ ensures [C17 fcw.iff] (err == nil) == sameFields(m, target)
+//@ ensures [C17 fcw.class] imp(err != nil, (errIs(err, ErrUnkownField) || errIs(err, ErrFieldDescModif)) && !isStorage(err) && !errIs(err, ErrIndexCorrupted))
+//@ loop 1 invariant [visited-ok] forallk(p, string, imp(has(m, p) && visited(p), has(target, p) && m[p].Path == target[p].Path && m[p].Type == target[p].Type))
+//@ loop 2 invariant [first-pass] forallk(p, string, imp(has(m, p), has(target, p) && m[p].Path == target[p].Path && m[p].Type == target[p].Type))
+//@ loop 2 invariant [visited-ok] forallk(p, string, imp(has(target, p) && visited(p), has(m, p)))
+//@ modifies nothing
+//@ allocates Elem[interface{}], FieldDescriptor.Path, FieldDescriptor.Type, FieldDescriptor.Constraints
+
+//@ func (FieldDescMap).CompatibleWith
+//@ serves C17
+//@ ensures [C17 cw.iff] (err == nil) == sameDescs(m, target)
+//@ ensures [C17 cw.class] imp(err != nil, (errIs(err, ErrUnkownField) || errIs(err, ErrFieldDescModif)) && !isStorage(err))
+//@ loop 1 invariant [visited-ok] forallk(p, string, imp(has(m, p) && visited(p), has(target, p) && m[p].Path == target[p].Path && m[p].Type == target[p].Type && m[p].Constraints.Index == target[p].Constraints.Index && m[p].Constraints.Unique == target[p].Constraints.Unique && m[p].Constraints.Upper == target[p].Constraints.Upper && m[p].Constraints.Lower == target[p].Constraints.Lower))
+//@ loop 2 invariant [first-pass] forallk(p, string, imp(has(m, p), has(target, p) && m[p].Path == target[p].Path && m[p].Type == target[p].Type && m[p].Constraints.Index == target[p].Constraints.Index && m[p].Constraints.Unique == target[p].Constraints.Unique && m[p].Constraints.Upper == target[p].Constraints.Upper && m[p].Constraints.Lower == target[p].Constraints.Lower))
+//@ loop 2 invariant [visited-ok] forallk(p, string, imp(has(target, p) && visited(p), has(m, p)))
+//@ modifies nothing
+//@ allocates Elem[interface{}], FieldDescriptor.Path, FieldDescriptor.Type, FieldDescriptor.Constraints
